@@ -7,7 +7,7 @@ wt=$1; name=$2; demo=$3; shift 3
 export GOFLAGS=-mod=mod GOPROXY=off GOSUMDB=off GOTOOLCHAIN=local
 cd "$wt" || exit 2
 cp MUTANT/patch.diff /tmp/vet-$name.diff
-cp "$demo" /tmp/vet-$name-demo_test.go 2>/dev/null || cp MUTANT/demo_test.go /tmp/vet-$name-demo_test.go
+cp "$demo" /tmp/vet-$name-demo_test.go 2>/dev/null || cp MUTANT/demo_test.go* /tmp/vet-$name-demo_test.go
 git checkout -q -- . ; rm -f "$demo"
 git apply --check /tmp/vet-$name.diff || { echo "FAIL: patch does not apply to clean tree"; exit 1; }
 # without patch: demo passes
